@@ -17,11 +17,11 @@ def classify(op, m):
     return op.split(' ')[0] + ':' + m.split(' ')[0]
 
 
-def read_stage(ctx, files):
+def read_stage(ctx, files, op='cert.read'):
     needs = ctx.model([f'cert.read.needs {f}' for f in files])
     need_lists = [[q for q in (n or '').split(' ') if q.startswith('cert:')] for n in needs]
     tabs = burl_tables(ctx, need_lists)
-    return ctx.both([f'cert.read {f} {c}' for f, (u, c) in zip(files, tabs)])
+    return ctx.both([f'{op} {f} {c}' for f, (u, c) in zip(files, tabs)])
 
 
 def run(ctx):
@@ -73,6 +73,9 @@ def run(ctx):
     for x in muts:
         if x not in seen: seen.add(x); uniq.append(x)
     read_stage(ctx, [hexs(x) for x in uniq])
+    # the same through a caller-owned *bytes.Buffer that is overwritten and reused before the result is looked at (no aliasing of the input)
+    read_stage(ctx, [hexs(x) for x in files], op='cert.read.buffer')
+    read_stage(ctx, [hexs(x) for x in uniq[::7]], op='cert.read.buffer')
     ops = []
     for spec in ([], [0], [0, 0], [1, 2, 3], [65535], [65536], [65533], [65534], [32766, 32765], [32766, 32766], [32767, 32767], [21843, 21843, 21843], [21844, 21843, 21843], [10] * 100, [0] * 32767, [0] * 32768):
         ops.append('sct.ser ' + (','.join(hexs(rbytes(rng, n)) if n else '-' for n in spec) or '.'))
